@@ -29,3 +29,32 @@ impl<T> SeqIter<T> {
             old(self).rest().len() > 0 ==> r == Some(old(self).rest()[0]) && final(self).rest() == old(self).rest().skip(1),
     { unimplemented!() }
 }
+impl<T> SeqIter<T> {
+    /// std `Iterator::map` (element-wise; the closure's contract relates input and output)
+    #[verifier::external_body]
+    pub fn map<B, F: FnMut(T) -> B>(self, f: F) -> (r: SeqIter<B>)
+        requires forall|i: int| 0 <= i < self.rest().len() ==> call_requires(f, (#[trigger] self.rest()[i],)),
+        ensures r.rest().len() == self.rest().len(),
+            forall|i: int| 0 <= i < self.rest().len() ==> call_ensures(f, (self.rest()[i],), #[trigger] r.rest()[i]),
+            forall|i: int| 0 <= i < self.rest().len() ==> call_ensures(f, (#[trigger] self.rest()[i],), r.rest()[i]),
+    { unimplemented!() }
+}
+impl SeqIter<u64> {
+    /// std `Iterator::max` on integers
+    #[verifier::external_body]
+    pub fn max(self) -> (r: Option<u64>)
+        ensures self.rest().len() == 0 ==> r is None,
+            self.rest().len() > 0 ==> r is Some && (exists|i: int| 0 <= i < self.rest().len() && #[trigger] self.rest()[i] == r->0)
+                && (forall|i: int| 0 <= i < self.rest().len() ==> #[trigger] self.rest()[i] <= r->0),
+    { unimplemented!() }
+}
+pub open spec fn opt_le(a: Option<u64>, b: Option<u64>) -> bool { match (a, b) { (None, _) => true, (Some(_), None) => false, (Some(x), Some(y)) => x <= y } }
+impl SeqIter<Option<u64>> {
+    /// std `Iterator::max` on Option<u64> (None < Some(_))
+    #[verifier::external_body]
+    pub fn max(self) -> (r: Option<Option<u64>>)
+        ensures self.rest().len() == 0 ==> r is None,
+            self.rest().len() > 0 ==> r is Some && (exists|i: int| 0 <= i < self.rest().len() && #[trigger] self.rest()[i] == r->0)
+                && (forall|i: int| 0 <= i < self.rest().len() ==> opt_le(#[trigger] self.rest()[i], r->0)),
+    { unimplemented!() }
+}
